@@ -264,6 +264,41 @@ def run(ctx):
                 shutil.rmtree(shm, ignore_errors=True)
         except NameError:
             pass
+    # directories that exist already and have never been used (freshly mounted volumes), with and without the permission to
+    # create directories: a usable store either way (create_dirs=False refuses only directories that do not exist)
+    from collections import OrderedDict
+    from dds.store import LocalFileStore
+    from dds.structures import DDSException
+    for create in (True, False):
+        tmpc = tempfile.mkdtemp(prefix="ddsverif_c16c_")
+        try:
+            os.makedirs(os.path.join(tmpc, "internal"))
+            os.makedirs(os.path.join(tmpc, "data"))
+            res.evaluations += 1
+            res.nontrivial("existing empty directories create_dirs=%s" % create)
+            res.count("existing_empty_directories")
+            try:
+                st = LocalFileStore(os.path.join(tmpc, "internal"), os.path.join(tmpc, "data"), create_dirs=create)
+                st.store_blob("kc", "value", None)
+                st.sync_paths(OrderedDict([("/c/p", "kc")]))
+                got = (st.has_blob("kc"), st.fetch_blob("kc"), dict(st.fetch_paths(["/c/p"])))
+            except BaseException as e:
+                got = "EXC:%s:%s" % (type(e).__name__, str(e)[:120])
+            if got != (True, "value", {"/c/p": "kc"}):
+                res.violations.append({"what": "LocalFileStore(existing empty internal directory, existing empty data directory, create_dirs=%s) is not a usable store: %s" % (create, got),
+                                       "input": {"create_dirs": create}, "kf": None})
+            try:
+                LocalFileStore(os.path.join(tmpc, "missing_i"), os.path.join(tmpc, "missing_d"), create_dirs=False)
+                refused = False
+            except DDSException:
+                refused = True
+            except BaseException:
+                refused = False
+            if not refused or os.path.exists(os.path.join(tmpc, "missing_i")):
+                res.violations.append({"what": "LocalFileStore(create_dirs=False) on directories that do not exist is not refused with a DDS error (or created them)",
+                                       "input": {"create_dirs": False}, "kf": None})
+        finally:
+            shutil.rmtree(tmpc, ignore_errors=True)
     res.rule = ("configurations: internal_dir x data_dir spelled {absolute, relative, trailing slash, nested non-existing, symlinked parent, "
                 "relative with ..} x cache_objects {None, False, True, 0, -1, 3} (quick: 21 sampled combinations), each with chdir and a "
                 "second process; plus two data views on one internal directory; one case = one configuration")
